@@ -91,6 +91,29 @@ def resolver_checks(ctx, f, mode):
         ctx.ob('C13.1', f, 'relativises-against-root', ok, 'every Ok value passed strip_prefix(root): absolute input is accepted only under the root')
 
 
+def build_taint(P):
+    """the C13 path taint: (engine, source-field table)."""
+    src_fields = {}
+    for ap, a in P.adts.items():
+        if not re.search(SCOPE, ap) and not ap.startswith('ripd::session::CheckpointCommand'):
+            continue
+        if not re.search(r'(Args|CheckpointRequest|CheckpointFile|CheckpointCommand)$', ap):
+            continue
+        for v in a['variants']:
+            for fl in v['fields']:
+                if fl['name'] in PATH_FIELD_NAMES and re.search(r'String|PathBuf', fl['ty']):
+                    src_fields[(ap, fl['name'])] = '%s.%s' % (ap.rsplit('::', 1)[-1], fl['name'])
+    cc = P.fn('rip_workspace::Workspace::create_checkpoint')
+    files_l = [i for i in range(1, cc.argc + 1) if cc.lname(i) == 'files']
+    if not files_l:
+        raise CheckError('C13.2: create_checkpoint has no `files` parameter')
+    T = Taint(P, lambda o, n: src_fields.get((o, n)), sanitizers=SANITIZERS,
+              scope=lambda f: bool(re.search(SCOPE, f.path)) or f.path.startswith('<rip_') or f.path.startswith('<ripd::checkpoints') or f.path.startswith('ripd::session::parse_action'),
+              param_sources={cc.path: {files_l[0]: 'create_checkpoint(files)'}}, no_propagate=is_sink,
+              clean_type=lambda ty: bool(re.match(r'^(bool|usize|u64|u32|u8|isize|i64|i32|\(\))$', ty))).run()
+    return T, src_fields
+
+
 def run(ctx):
     P = ctx.prog
     ctx.not_decided = 'symlinks inside the workspace (not in the statement); session / checkpoint ids used as path components are chosen by the authority (UUIDs) or matched against a directory listing.'
@@ -105,25 +128,9 @@ def run(ctx):
         resolver_checks(ctx, f, mode)
 
     # ---------------------------------------------------------------- C13.2
-    src_fields = {}
-    for ap, a in P.adts.items():
-        if not re.search(SCOPE, ap) and not ap.startswith('ripd::session::CheckpointCommand'):
-            continue
-        if not re.search(r'(Args|CheckpointRequest|CheckpointFile|CheckpointCommand)$', ap):
-            continue
-        for v in a['variants']:
-            for fl in v['fields']:
-                if fl['name'] in PATH_FIELD_NAMES and re.search(r'String|PathBuf', fl['ty']):
-                    src_fields[(ap, fl['name'])] = '%s.%s' % (ap.rsplit('::', 1)[-1], fl['name'])
+    T, src_fields = build_taint(P)
     ctx.floor('C13.2', 'untrusted path-bearing fields', len(src_fields), 9)
     ctx.note('C13.2 sources: ' + ', '.join(sorted(src_fields.values())))
-    cc = P.fn('rip_workspace::Workspace::create_checkpoint')
-    files_l = [i for i in range(1, cc.argc + 1) if cc.lname(i) == 'files']
-    if not files_l:
-        raise CheckError('C13.2: create_checkpoint has no `files` parameter')
-    T = Taint(P, lambda o, n: src_fields.get((o, n)), sanitizers=SANITIZERS,
-              scope=lambda f: bool(re.search(SCOPE, f.path)) or f.path.startswith('<rip_') or f.path.startswith('<ripd::checkpoints') or f.path.startswith('ripd::session::parse_action'),
-              param_sources={cc.path: {files_l[0]: 'create_checkpoint(files)'}}, no_propagate=is_sink).run()
     nsinks = 0
     for p, f in sorted(P.fns.items()):
         if not (re.search(SCOPE, p) or p.startswith('<ripd::checkpoints') or p.startswith('<rip_tools') or p.startswith('<rip_workspace')):
@@ -135,7 +142,7 @@ def run(ctx):
                 if ai >= len(s.args):
                     continue
                 nsinks += 1
-                lab = T.tainted(f, s.args[ai])
+                lab = T.tainted(f, s.args[ai], s.bb)
                 if not lab:
                     continue
                 ctx.touch(f)
